@@ -22,7 +22,9 @@ def env : Env :=
     families := [("actions", .byType actions "ofp_action_generic"),
                  ("queue_props", .byType queueProps "ofp_queue_prop_generic"),
                  ("ofp_phy_port", .single "ofp_phy_port"),
-                 ("ofp_packet_queue", .single "ofp_packet_queue")] }
+                 ("ofp_packet_queue", .single "ofp_packet_queue")] ++
+                -- one family per statistics reply class whose body is an array of entries (`is_list = True`)
+                statsReplies.filterMap fun q => if q.2.2 then some (q.2.1, Family.single q.2.1) else none }
 
 /-- fixed element size of a family, when all its elements have one (`len(self.ports) * len(ofp_phy_port)`) -/
 def elemSize (fam : String) : Option Nat :=
@@ -72,5 +74,132 @@ def decPacketOut (C : Codec E) (bs : Bytes) : Option (PacketOut E × Bytes) :=
     | none => none
     | some acts => some (⟨version, header_type, xid, buffer_id, in_port, acts, r.drop alen⟩, tl)
   | _ => none
+
+/-! ## `ofp_flow_mod.pack` with its `data` attribute ("Special magic", libopenflow_01.py:2314-2354)
+
+`data` may be an `ofp_packet_in`.  If it is *complete* (`is_complete`, 3810-3813: buffered, or `len(data) == total_len`):
+the flow-mod goes out with the packet-in's `buffer_id` instead of its own, and if the packet-in is not buffered the
+flow-mod is followed by an `ofp_barrier_request` and an `ofp_packet_out` that re-injects the packet
+(`in_port` of the packet-in, one action `output:OFPP_TABLE`, no buffer).  If it is not complete a warning is logged and
+`data` is ignored.  The two extra messages get fresh xids (inputs `xb`, `xp` here). -/
+
+def NO_BUFFER : Nat := 4294967295
+
+structure PacketInData where
+  buffer_id : Nat          -- raw `_buffer_id` (NO_BUFFER = not buffered)
+  in_port : Nat
+  total_len : Nat
+  data : Bytes
+
+def PacketInData.complete (d : PacketInData) : Bool := d.buffer_id != NO_BUFFER || d.data.length == d.total_len
+
+structure FlowMod (E : Type) where
+  version : Nat
+  header_type : Nat
+  xid : Nat
+  match_ : Bytes           -- `self.match.pack(flow_mod=True)`: `CodecMatch.pack true`
+  cookie : Nat
+  command : Nat
+  idle_timeout : Nat
+  hard_timeout : Nat
+  priority : Nat
+  buffer_id : Nat          -- raw `_buffer_id`
+  out_port : Nat
+  flags : Nat
+  actions : List E
+
+/-- the `buffer_id` that goes on the wire -/
+def wireBuffer (own : Nat) : Option PacketInData → Nat
+  | none => own
+  | some d => if d.complete then d.buffer_id else own
+
+/-- whether the barrier + packet-out are appended -/
+def needsPacketOut : Option PacketInData → Bool
+  | none => false
+  | some d => d.complete && d.buffer_id == NO_BUFFER
+
+def fmVals (f : FlowMod E) (bid : Nat) : List Val :=
+  [.num f.version, .num f.header_type, .num f.xid, .raw f.match_, .num f.cookie, .num f.command, .num f.idle_timeout,
+   .num f.hard_timeout, .num f.priority, .num bid, .num f.out_port, .num f.flags]
+
+def encFlowMod (C : Codec E) (f : FlowMod E) (bid : Nat) : Option Bytes :=
+  encode C Spec.OF10.ofp_flow_mod ⟨fmVals f bid, .items f.actions⟩
+
+/-- `ofp_barrier_request()` with xid `xb` -/
+def barrierRec (E : Type) (xb : Nat) : Rec E := ⟨[.num 1, .num 18, .num xb], .none⟩
+
+/-- `ofp_packet_out(data=pi)`, `in_port = pi.in_port`, `actions = [outTable]` -/
+def reinject (outTable : E) (xp : Nat) (d : PacketInData) : PacketOut E :=
+  ⟨1, 13, xp, NO_BUFFER, d.in_port, [outTable], d.data⟩
+
+/-- the messages `ofp_flow_mod.pack()` returns, in order (`outTable` = the element `ofp_action_output(port=OFPP_TABLE)`) -/
+def fmPack (C : Codec E) (outTable : E) (f : FlowMod E) (d : Option PacketInData) (xb xp : Nat) : Option (List Bytes) :=
+  match encFlowMod C f (wireBuffer f.buffer_id d) with
+  | none => none
+  | some m1 =>
+    match d with
+    | some pd =>
+      if needsPacketOut d then
+        match encode C Spec.OF10.header_only (barrierRec E xb), encPacketOut C (reinject outTable xp pd) with
+        | some m2, some m3 => some [m1, m2, m3]
+        | _, _ => none
+      else some [m1]
+    | none => some [m1]
+
+/-! ## Statistics request / reply: body dispatch by type code
+
+`ofp_stats_request.unpack` (libopenflow_01.py:2632-2648) and `ofp_stats_reply.unpack` (2732-2760): header, `!HH` type and
+flags, `_read(raw, offset, length - 12)`, then by `_stats_type_to_class_info.get(type)`:
+* reply registered with `is_list`: `while len(packed): part = t.reply(); off = part.unpack(packed, 0, len(packed)); …`
+  — an array of entries up to the end of the message: the `list` tail of family `t.reply`;
+* reply/request registered without `is_list`: one body object `unpack(body, 0, len(body))` — `decBody`;
+* unknown reply type: the raw bytes; unknown request type: `ofp_generic_stats_body` (one body object).
+`pack` (2600-2614, 2709-2730) writes header, type, flags and the packed body / bodies. -/
+
+inductive BodyKind where
+  | list (cls : String)
+  | single (cls : String)
+  | raw
+  deriving DecidableEq, Repr
+
+def replyKind (t : Nat) : BodyKind :=
+  match statsReplies.lookup t with
+  | some (c, true) => .list c
+  | some (c, false) => .single c
+  | none => .raw
+
+def requestKind (t : Nat) : BodyKind :=
+  match statsRequests.lookup t with
+  | some c => .single c
+  | none => .single "ofp_generic_stats_body"
+
+/-- `struct ofp_stats_request/reply` up to `body` (what `C01.pack_eq_spec` shows both classes to have) -/
+def statsFixed : List Field := Spec.OF10.ofp_stats_msg.fixed
+
+def statsLayout (reply : Bool) (t : Nat) : Layout :=
+  match (if reply then replyKind t else requestKind t) with
+  | .list c => ⟨statsFixed, .list "body" c⟩
+  | _ => ⟨statsFixed, .rest "body"⟩
+
+/-- the `type` value of a stats message record (version, header_type, xid, type, flags) -/
+def statsType : List Val → Option Nat
+  | [_, _, _, .num t, _] => some t
+  | _ => none
+
+def encStats (C : Codec E) (reply : Bool) (r : Rec E) : Option Bytes :=
+  match statsType r.vals with
+  | some t => encode C (statsLayout reply t) r
+  | none => none
+
+def decStats (C : Codec E) (reply : Bool) (bs : Bytes) : Option (Rec E × Bytes) :=
+  match decode C ⟨statsFixed, .rest "body"⟩ none bs with
+  | some (r0, _) =>
+    match statsType r0.vals with
+    | some t => decode C (statsLayout reply t) none bs
+    | none => none
+  | none => none
+
+/-- a single body object: `self.body = cls(); self.body.unpack(body, 0, len(body))` -/
+def decBody (C : Codec E) (L : Layout) (body : Bytes) : Option (Rec E × Bytes) := decode C L (some body.length) body
 
 end Pox.CodecOF
